@@ -1,7 +1,11 @@
 (* drv_search.ml -- line-protocol driver of the extracted C13 model (coq/SearchDefs.v).
-   run <ic> <row> <off> <line,line,...(hex, with newline)> <cmd>...   cmd = /hex:cnt ?hex:cnt n:cnt N:cnt A:cnt
+   run <ic> <row> <off> <line,line,...(hex, with newline)> <cmd>...   cmd = /hex:cnt ?hex:cnt n:cnt N:cnt A:cnt Khex:1
      -> per command "ok row off soset so" joined by ';' (soset so = the remembered line offset after the
-        command), or "unsupported" when a pattern is outside the reference matcher's subset
+        command), or "unsupported" when a pattern is outside the reference matcher's subset.
+        A pattern the reference matcher does not parse is outside the subset only if the compile chain of the
+        code accepts it (Search4Defs.code_rcomp: rstr.c fast path, else the C10 model of rset_make / regcomp);
+        a pattern that chain rejects is a malformed pattern, and the model's answer (not found, in place) stands.
+        Khex = an ex command (:s :g) that leaves its pattern behind and does nothing else: ex_kwdset(pat, +1)
    find <ic> <kw> <subject> <notbol>  -> b e | none          (the reference matcher as the code calls it)
    occ <ic> <kw> <line>               -> the successive matches of the whole line (character offsets) *)
 let pr = Printf.printf
@@ -16,16 +20,20 @@ let parse_cmd w =
     else (CQuest (bytes_of_hex (String.sub c 1 (String.length c - 1))), n)
   | _ -> failwith "cmd"
 
+let is_k w = String.length w > 0 && w.[0] = 'K'
+let k_pat w = match split ':' w with [c; _] -> bytes_of_hex (String.sub c 1 (String.length c - 1)) | _ -> failwith "cmd"
+
 let do_run ic row off lines cmds =
   let ic = ic = "1" in
   let lb = if lines = "-" then [] else List.map bytes_of_hex (split ',' lines) in
   let st = ref sstate0 and r = ref (nat_of_int row) and o = ref (nat_of_int off) in
   let out = ref [] and unsup = ref false in
   List.iter (fun w ->
-    let (c, n) = parse_cmd w in
-    let ((st1, ok), (r1, o1)) = search_cmd (fm_suffix (ref_rfind ic)) ref_rcomp !st lb c n !r !o in
+    let ((st1, ok), (r1, o1)) =
+      if is_k w then ((ex_kwdset_fwd !st (k_pat w), false), (!r, !o))
+      else let (c, n) = parse_cmd w in search_cmd (fm_suffix (ref_rfind ic)) ref_rcomp !st lb c n !r !o in
     st := st1; r := r1; o := o1;
-    if st1.kwd <> [] && not (ref_rcomp st1.kwd) then unsup := true;
+    if st1.kwd <> [] && not (ref_rcomp st1.kwd) && code_rcomp ic st1.kwd then unsup := true;
     out := Printf.sprintf "%d %d %d %d %d" (if ok then 1 else 0) (int_of_nat r1) (int_of_nat o1)
              (if st1.soset then 1 else 0) (int_of_z st1.so) :: !out) cmds;
   if !unsup then pr "unsupported\n" else pr "%s\n" (String.concat ";" (List.rev !out))
